@@ -332,6 +332,46 @@ struct Ex
    }
 };
 
+// ------------------------------------------------------------------------------------------------ index-array guard
+// The index array of every caller-owned semi-sparse vector handed to the factorisation is temporarily replaced by a window in the middle
+// of a canary-filled buffer with the same logical capacity.  A store outside [0, capacity) -- an overrun of the caller's array -- is then
+// observed deterministically in every flavour (and does not corrupt the heap of the harness) instead of only under ASan.
+template <class V> struct IdxGuard
+{
+   static const int CAN = 0x5ca1ab1e;
+   V& v;
+   int* orig;
+   int origLen, cap, pad;
+   std::vector<int> buf;
+   IdxGuard(V& vv, int capacity) : v(vv), orig(vv.idx), origLen(vv.len), cap(capacity), pad(4 * capacity + 64)
+   {
+      buf.assign((size_t)(cap + 2 * pad), CAN);
+      for(int i = 0; i < cap; i++) buf[(size_t)(pad + i)] = (i < v.num && i < origLen) ? orig[i] : 0;
+      v.idx = buf.data() + pad;
+      v.len = cap;
+   }
+   int below() const
+   {
+      int c = 0;
+      for(int i = 0; i < pad; i++) if(buf[(size_t)i] != CAN) c++;
+      return c;
+   }
+   int above() const
+   {
+      int c = 0;
+      for(int i = pad + cap; i < cap + 2 * pad; i++) if(buf[(size_t)i] != CAN) c++;
+      return c;
+   }
+   ~IdxGuard()
+   {
+      if(v.num > origLen) v.num = origLen;
+      if(v.num < 0) v.num = 0;
+      for(int i = 0; i < v.num; i++) orig[i] = buf[(size_t)(pad + i)];
+      v.idx = orig;
+      v.len = origLen;
+   }
+};
+
 // ------------------------------------------------------------------------------------------------ C10 monitors
 struct C10Ctx
 {
@@ -349,19 +389,22 @@ struct C10Ctx
       double s = (double)F->stability();
       return (s > 0 && s < 1) ? 1.0 / s : 1.0;
    }
-   // semi-sparse vectors are built in place (the copy constructor would shrink the index capacity to dim): either as the solver's
-   // own vectors (created empty, then reDim(): index capacity >= dim + 1) or with index capacity exactly dim
-   void initSS(SSVectorBase<double>& v) const
+   // index capacity of caller-owned semi-sparse vectors: dim + 1 as the solver's own vectors have (created empty, then reDim()), or exactly
+   // dim as SSVectorBase(dim) and the SSVectorBase copy constructor give
+   int cap() const
    {
-      if(!exactCap) v.reDim(E->n);
-   }
-   int ssDim() const
-   {
-      return exactCap ? E->n : 0;
+      return exactCap ? E->n : E->n + 1;
    }
    std::string cell() const
    {
-      return "{utype=" + ut + ",phase=" + phase + "}";
+      return "{utype=" + ut + ",phase=" + phase + (exactCap ? ",cap=dim" : "") + "}";
+   }
+   void overrun(const IdxGuard<SSVectorBase<double>>& gd, const std::string& variant, const char* which) const
+   {
+      sink().count("c10.index_guard.checked");
+      int b = gd.below(), a = gd.above();
+      if(a || b)
+         sink().viol("C10:" + variant + ":index-array-overrun." + which + ":" + cell(), std::to_string(b) + " store(s) below and " + std::to_string(a) + " above the caller's index array of " + which + " (capacity " + std::to_string(gd.cap) + ", dim " + std::to_string(E->n) + ")", replay());
    }
    std::string replay() const
    {
@@ -613,8 +656,8 @@ static void runVariant(C10Ctx& C, Rng& g, int v, RhsV* forced, SSVectorBase<doub
    std::string name = VARNAME[v];
    auto pickKind = [&](bool needSparseish) { int k = g.range(0, 9); return k < 3 ? 0 : k < 5 ? 1 : k < 7 ? 2 : needSparseish ? (k == 7 ? 0 : 4) : (k == 7 ? 3 : 4); };
    RhsV b1 = forced ? *forced : makeRhs(g, E, left, (v == R_DENSE || v == L_DENSE || v == R_SS || v == L_SS) ? (g.chance(0.5) ? 3 : pickKind(false)) : pickKind(true));
-   SSVectorBase<double> xloc(C.ssDim(), C.tol);
-   C.initSS(xloc);
+   typedef IdxGuard<SSVectorBase<double>> G;
+   SSVectorBase<double> xloc(n, C.tol);
    SSVectorBase<double>& x = xpersist ? *xpersist : xloc;
    switch(v)
    {
@@ -632,13 +675,15 @@ static void runVariant(C10Ctx& C, Rng& g, int v, RhsV* forced, SSVectorBase<doub
    case R_SS:
    case L_SS:
    {
-      SSVectorBase<double> bs(C.ssDim(), C.tol);
-      C.initSS(bs);
+      SSVectorBase<double> bs(n, C.tol);
       fillSS(bs, b1);
+      G gx(x, C.cap()), gb(bs, C.cap());
       if(left) F.solveLeft(x, (const SSVectorBase<double>&)bs);
       else F.solveRight(x, (const SSVectorBase<double>&)bs);
       judge(C, left, b1, wantFwd, valsOf(x), name);
       judgeIdx(C, left, b1, x, name);
+      C.overrun(gx, name, "x");
+      C.overrun(gb, name, "b");
       break;
    }
    case R_SV:
@@ -646,11 +691,13 @@ static void runVariant(C10Ctx& C, Rng& g, int v, RhsV* forced, SSVectorBase<doub
    case R_4UPD:
    {
       DSVectorBase<double> bs = toSV(b1);
+      G gx(x, C.cap());
       if(v == R_SV) F.solveRight(x, (const SVectorBase<double>&)bs);
       else if(v == L_SV) F.solveLeft(x, (const SVectorBase<double>&)bs);
       else F.solveRight4update(x, bs);
       judge(C, left, b1, wantFwd, valsOf(x), name);
       judgeIdx(C, left, b1, x, name);
+      C.overrun(gx, name, "x");
       break;
    }
    default:
@@ -660,55 +707,67 @@ static void runVariant(C10Ctx& C, Rng& g, int v, RhsV* forced, SSVectorBase<doub
       bool sparseOut = v == R_2UPD_S || v == R_3UPD_S || v == L_2_S || v == L_3_S;
       RhsV b2 = makeRhs(g, E, left, pickKind(true)), b3 = makeRhs(g, E, left, pickKind(true));
       DSVectorBase<double> s1 = toSV(b1), s2 = toSV(b2), s3 = toSV(b3);
-      SSVectorBase<double> r1(C.ssDim(), C.tol), r2(C.ssDim(), C.tol), r3(C.ssDim(), C.tol);
-      C.initSS(r1);
-      C.initSS(r2);
-      C.initSS(r3);
-      if(left)
+      std::vector<double> ref1, ref2, ref3;
       {
-         F.solveLeft(r1, (const SVectorBase<double>&)s1);
-         F.solveLeft(r2, (const SVectorBase<double>&)s2);
-         if(three) F.solveLeft(r3, (const SVectorBase<double>&)s3);
+         SSVectorBase<double> r1(n, C.tol), r2(n, C.tol), r3(n, C.tol);
+         G g1(r1, C.cap()), g2(r2, C.cap()), g3(r3, C.cap());
+         if(left)
+         {
+            F.solveLeft(r1, (const SVectorBase<double>&)s1);
+            F.solveLeft(r2, (const SVectorBase<double>&)s2);
+            if(three) F.solveLeft(r3, (const SVectorBase<double>&)s3);
+         }
+         else
+         {
+            F.solveRight(r1, (const SVectorBase<double>&)s1);
+            F.solveRight(r2, (const SVectorBase<double>&)s2);
+            if(three) F.solveRight(r3, (const SVectorBase<double>&)s3);
+         }
+         ref1 = valsOf(r1);
+         ref2 = valsOf(r2);
+         ref3 = valsOf(r3);
+         const char* sn = left ? "solveLeft.svec" : "solveRight.svec";
+         C.overrun(g1, sn, "x");
+         C.overrun(g2, sn, "x");
+         C.overrun(g3, sn, "x");
       }
-      else
-      {
-         F.solveRight(r1, (const SVectorBase<double>&)s1);
-         F.solveRight(r2, (const SVectorBase<double>&)s2);
-         if(three) F.solveRight(r3, (const SVectorBase<double>&)s3);
-      }
-      std::vector<double> ref1 = valsOf(r1), ref2 = valsOf(r2), ref3 = valsOf(r3);
-      SSVectorBase<double> d(C.ssDim(), C.tol), e(C.ssDim(), C.tol);
-      C.initSS(d);
-      C.initSS(e);
+      SSVectorBase<double> d(n, C.tol), e(n, C.tol);
       fillSS(d, b2);
       fillSS(e, b3);
       std::vector<double> y, z;
-      if(sparseOut)
       {
-         SSVectorBase<double> ys(C.ssDim(), C.tol), zs(C.ssDim(), C.tol);
-         C.initSS(ys);
-         C.initSS(zs);
-         if(v == R_2UPD_S) F.solve2right4update(x, ys, s1, d);
-         else if(v == R_3UPD_S) F.solve3right4update(x, ys, zs, s1, d, e);
-         else if(v == L_2_S) F.solveLeft(x, ys, s1, d);
-         else F.solveLeft(x, ys, zs, s1, d, e);
-         y = valsOf(ys);
-         z = valsOf(zs);
-         judgeIdx(C, left, b2, ys, name + ".y");
-         if(three) judgeIdx(C, left, b3, zs, name + ".z");
+         G gx(x, C.cap()), gd(d, C.cap()), ge(e, C.cap());
+         if(sparseOut)
+         {
+            SSVectorBase<double> ys(n, C.tol), zs(n, C.tol);
+            G gy(ys, C.cap()), gz(zs, C.cap());
+            if(v == R_2UPD_S) F.solve2right4update(x, ys, s1, d);
+            else if(v == R_3UPD_S) F.solve3right4update(x, ys, zs, s1, d, e);
+            else if(v == L_2_S) F.solveLeft(x, ys, s1, d);
+            else F.solveLeft(x, ys, zs, s1, d, e);
+            y = valsOf(ys);
+            z = valsOf(zs);
+            judgeIdx(C, left, b2, ys, name + ".y");
+            if(three) judgeIdx(C, left, b3, zs, name + ".z");
+            C.overrun(gy, name, "y");
+            C.overrun(gz, name, "z");
+         }
+         else
+         {
+            VectorBase<double> yv(n), zv(n);
+            if(v == R_2UPD_D) F.solve2right4update(x, yv, s1, d);
+            else if(v == R_3UPD_D) F.solve3right4update(x, yv, zv, s1, d, e);
+            else if(v == L_2_D) F.solveLeft(x, yv, s1, d);
+            else F.solveLeft(x, yv, zv, s1, d, e);
+            y = valsOf(yv);
+            z = valsOf(zv);
+         }
+         judge(C, left, b1, wantFwd, valsOf(x), name + ".x");
+         judgeIdx(C, left, b1, x, name + ".x");
+         C.overrun(gx, name, "x");
+         C.overrun(gd, name, "rhs2");
+         C.overrun(ge, name, "rhs3");
       }
-      else
-      {
-         VectorBase<double> yv(n), zv(n);
-         if(v == R_2UPD_D) F.solve2right4update(x, yv, s1, d);
-         else if(v == R_3UPD_D) F.solve3right4update(x, yv, zv, s1, d, e);
-         else if(v == L_2_D) F.solveLeft(x, yv, s1, d);
-         else F.solveLeft(x, yv, zv, s1, d, e);
-         y = valsOf(yv);
-         z = valsOf(zv);
-      }
-      judge(C, left, b1, wantFwd, valsOf(x), name + ".x");
-      judgeIdx(C, left, b1, x, name + ".x");
       judge(C, left, b2, wantFwd, y, name + ".y");
       agree(C, left, valsOf(x), ref1, name, "x");
       agree(C, left, y, ref2, name, "y");
@@ -917,13 +976,9 @@ static void caseC10(long long k, Rng& g)
    double stab0 = (double)F.stability();
    S.count("c10.stability.read");
    if(!(stab0 >= 0 && stab0 <= 1)) S.count("c10.stability.out_of_unit_interval");
-#if defined(__SANITIZE_ADDRESS__)
-   // exact-capacity result vectors only where an out-of-bounds index write is reported instead of corrupting the heap
-   C.exactCap = (k / (2 * nf)) % 8 == 3;
-#endif
+   C.exactCap = (k / (2 * nf)) % 4 == 3;
    if(C.exactCap) S.count("c10.result_vectors.exact_capacity_cases");
-   SSVectorBase<double> xpersist(C.ssDim(), tol);
-   C.initSS(xpersist);
+   SSVectorBase<double> xpersist(n, tol);
    probe(C, g, NVAR, &xpersist);
 
    // ---------------- update history, driven like SPxBasisBase::change(): solve*4update(x, enterVec, ...) then change(i, enterVec, eta)
@@ -1004,8 +1059,7 @@ static void caseC10(long long k, Rng& g)
       static const int UPDV[5] = {R_4UPD, R_2UPD_D, R_2UPD_S, R_3UPD_D, R_3UPD_S};
       int uv = g.chance(0.5) ? R_4UPD : UPDV[g.range(1, 4)];
       bool usePersist = g.chance(0.7);
-      SSVectorBase<double> xl(C.ssDim(), tol);
-      C.initSS(xl);
+      SSVectorBase<double> xl(n, tol);
       SSVectorBase<double>& x = usePersist ? xpersist : xl;
       runVariant(C, g, uv, &ent, &x, true);
       S.count(std::string("c10.update.via.") + VARNAME[uv] + "." + ut);
